@@ -30,6 +30,12 @@ def _build(name):
         return odl.rn(4)
     if name == 'rn3f32':
         return odl.rn(3, dtype='float32')
+    if name == 'rn60k':
+        return odl.rn(60000)                         # above the BLAS threshold of lincomb (50000)
+    if name == 'ud60k':
+        return odl.uniform_discr(0, 3, 60000)        # cell volume 1/20000
+    if name == 'cn60k':
+        return odl.cn(60000)
     if name == 'rn3w2':
         return odl.rn(3, weighting=2.0)
     if name == 'rn2w2':
